@@ -226,4 +226,38 @@ theorem deleteGroup_erases (w : Wal) : (Wal.deleteGroup w).disk = ⟨[], none, n
 theorem open_after_deleteGroup (w : Wal) : Wal.open_ (Wal.deleteGroup w).disk = Wal.fresh := by
   rw [deleteGroup_erases]; rfl
 
+namespace Mem
+
+theorem limitSize_go_prefix (maxSize : Nat) (xs acc : List Entry) (size : Nat) :
+    ∃ p, limitSize.go maxSize acc size xs = acc.reverse ++ p ∧ p <+: xs := by
+  induction xs generalizing acc size with
+  | nil => exact ⟨[], by simp [limitSize.go], List.prefix_refl _⟩
+  | cons x xs ih =>
+    simp only [limitSize.go]
+    split
+    · exact ⟨[], by simp, List.nil_prefix⟩
+    · obtain ⟨p, hp, hpre⟩ := ih (x :: acc) (size + x.size)
+      refine ⟨x :: p, ?_, ?_⟩
+      · rw [hp]; simp
+      · exact List.cons_prefix_cons.mpr ⟨rfl, hpre⟩
+
+/-- a size-limited read is a run from the start of the requested window: nothing is stepped over -/
+theorem limitSize_prefix (xs : List Entry) (maxSize : Nat) : limitSize xs maxSize <+: xs := by
+  cases xs with
+  | nil => simp [limitSize]
+  | cons e rest =>
+    obtain ⟨p, hp, hpre⟩ := limitSize_go_prefix maxSize rest [e] e.size
+    simp only [limitSize, hp, List.reverse_cons, List.reverse_nil, List.nil_append, List.singleton_append]
+    exact List.cons_prefix_cons.mpr ⟨rfl, hpre⟩
+
+/-- and it is never empty for a non-empty window (the first entry is returned whatever its size) -/
+theorem limitSize_ne_nil (xs : List Entry) (maxSize : Nat) (h : xs ≠ []) : limitSize xs maxSize ≠ [] := by
+  cases xs with
+  | nil => exact absurd rfl h
+  | cons e rest =>
+    obtain ⟨p, hp, _⟩ := limitSize_go_prefix maxSize rest [e] e.size
+    simp [limitSize, hp]
+
+end Mem
+
 end Anndb.Wal
